@@ -33,7 +33,7 @@ def entry(path, kind):
         meta = json.load(open(os.path.join(os.path.dirname(path), "meta.json")))
         exp, sil = [meta["property"]], []
     else:
-        name = os.path.basename(path)[:-3]
+        name = os.path.splitext(os.path.basename(path))[0]
         exp, sil = header(path)
     if kind == "preserving":
         checks = [prop] if prop else ALL
@@ -47,7 +47,7 @@ def entry(path, kind):
     out = {"entry": kind + "/" + name, "expect": [c for c in exp if c in checks], "silent": [c for c in sil if c in checks], "results": {}, "ok": True}
     try:
         run(f"cp -r {REPO}/. . && rm -rf .git", d)
-        if kind == "seeded":
+        if kind == "seeded" or path.endswith(".diff"):
             rc, o = run(f"git init -q . && git apply {path} && rm -rf .git", d)
         else:
             rc, o = run(f"python3 {path}", d)
@@ -72,7 +72,7 @@ def entry(path, kind):
         return out
     finally:
         shutil.rmtree(d, ignore_errors=True)
-work = [(p, "breaking") for p in sorted(glob.glob(f"{HERE}/selfval/breaking/*.py"))] + [(p, "preserving") for p in sorted(glob.glob(f"{HERE}/selfval/preserving/*.py"))] + [(p, "seeded") for p in sorted(glob.glob(f"{HERE}/seeded/*/patch.diff"))]
+work = [(p, "breaking") for p in sorted(glob.glob(f"{HERE}/selfval/breaking/*.py") + glob.glob(f"{HERE}/selfval/breaking/*.diff"))] + [(p, "preserving") for p in sorted(glob.glob(f"{HERE}/selfval/preserving/*.py") + glob.glob(f"{HERE}/selfval/preserving/*.diff"))] + [(p, "seeded") for p in sorted(glob.glob(f"{HERE}/seeded/*/patch.diff"))]
 results = []
 with cf.ThreadPoolExecutor(max_workers=jobs) as ex:
     for r in ex.map(lambda w: entry(*w), work):
